@@ -160,6 +160,27 @@ def _oracle_job(pp, job):
                         d = _res(pp, lambda: (lambda r: (r[1].as_list(), r[0]))(root._parse(parsed, a, callPreParse=False)))
                         if d != ("ok", (t, b)):
                             rec("each scan_string match equals a direct parse begun at start", s, [t, b], d)
+                    # "no position skipped over would have matched": between two reported matches (and after the last one)
+                    # every position that the scanner cannot have skipped as whitespace - a character outside the
+                    # expression's own whitespace set - was tried, so a direct parse begun there must not succeed with a
+                    # non-empty match.  (With ignorables a position inside skipped comment text is legitimately passed
+                    # over; zero-width matches fall under the driver's nextLoc > loc rule - both stay out of this clause.)
+                    if not has_ign:
+                        wsset = set(root.whiteChars)
+                        gaps, prev = [], 0
+                        for t, a, b in ms:
+                            gaps.append((prev, a))
+                            prev = max(prev, b)
+                        gaps.append((prev, len(parsed)))
+                        for lo, hi in gaps:
+                            for q in range(lo, min(hi, len(parsed))):
+                                if parsed[q] in wsset:
+                                    continue
+                                d = _res(pp, lambda: root._parse(parsed, q, callPreParse=False)[0])
+                                if d[0] == "ok" and d[1] > q:
+                                    rec("no position skipped over by scan_string would have matched", s,
+                                        f"no match begins at {q}", f"a direct parse at {q} matches up to {d[1]}; scan_string reported {[(a, b) for _, a, b in ms]}")
+                                    break
                     for k in (1, 2):
                         part = _res(pp, lambda: [(t.as_list(), a, b) for t, a, b in root.scan_string(s, max_matches=k)])
                         if part != ("ok", ms[:k]):
